@@ -14,10 +14,10 @@ Definition ts_ignores_trailer_stmt : Prop := forall u t1 t2 ts,
 (* the range entry point returns what an ordered map returns, except on the listed class of inputs *)
 Definition bpt_range_statement : Prop := forall V (m : omap bytes V) lo hi,
   om_sorted lex_cmp m -> bpt_range lex_cmp lo hi m = om_range_spec lex_cmp lo hi m.
-Definition bpt_range_refuted_stmt : Prop := exists (m : omap bytes N) lo hi,
-  om_sorted lex_cmp m /\ bpt_range lex_cmp lo hi m <> om_range_spec lex_cmp lo hi m.
-Definition bpt_range_outside_known_stmt : Prop := forall V (m : omap bytes V) lo hi,
-  om_sorted lex_cmp m -> bpt_range_known lo m = false -> bpt_range lex_cmp lo hi m = om_range_spec lex_cmp lo hi m.
+(* regression record of finding F30 (before fix 83ce498 an excluded empty start key was treated as unbounded):
+   with that reading the statement fails on a map that holds the empty key *)
+Definition bpt_range_old_refuted_stmt : Prop := exists (m : omap bytes N) hi,
+  om_sorted lex_cmp m /\ om_range lex_cmp Unb hi m <> om_range_spec lex_cmp (Excl []) hi m.
 (* under the timestamp order every key has at least 16 bytes, so the entry point and the map agree whenever the start key is not empty *)
 Definition bpt_range_nonempty_start_stmt : Prop := forall V cmp (m : omap bytes V) lo hi,
-  preorder cmp -> om_sorted cmp m -> (lo <> Incl [] /\ lo <> Excl []) -> bpt_range cmp lo hi m = om_range_spec cmp lo hi m.
+  preorder cmp -> om_sorted cmp m -> lo <> Incl [] -> bpt_range cmp lo hi m = om_range_spec cmp lo hi m.
